@@ -531,11 +531,23 @@ static int mainKnn(int argc, char** argv)
       std::vector<int> leafs;
       for (int l = 1; l <= n; l++) leafs.push_back(l);
       leafs.push_back(10);
-      leafs.push_back(40);
+      // Ball(VectorVectorDouble) frees n_features rows of a copy that has n_samples rows: invalid
+      // free when there are fewer points than dimensions (gstlearn defect recorded in
+      // known/C06.json).  Such cases build their trees from a Db, except the few probes that the
+      // driver marks and runs in a process of their own.
+      bool viaDb = n < dim && !ka.getb("force_vvd", false);
+      Db* dbAll = nullptr;
+      if (viaDb)
+      {
+        dbAll = Db::create();
+        static const char* XN[3] = {"x1", "x2", "x3"};
+        for (int k = 0; k < dim; k++) dbAll->addColumns(data[k], XN[k], ELoc::X, k);
+      }
       for (int leaf : leafs)
       {
         std::string L = std::to_string(leaf);
-        Ball ball(data, nullptr, leaf, metric);
+        Ball* pball = viaDb ? new Ball(dbAll, nullptr, leaf, metric) : new Ball(data, nullptr, leaf, metric);
+        Ball& ball = *pball;
         for (int k = 1; k <= n; k++)
         {
           KNN r1 = ball.queryOneAsVD(q, k);
@@ -566,7 +578,9 @@ static int mainKnn(int argc, char** argv)
             record(1, c1, r1.getDistances(0), L + ":queryClosest");
           }
         }
+        delete pball;
       }
+      delete dbAll;
       // tree built from a Db (one leaf size), with and without a selection hiding nothing
       {
         Db* db = Db::create();
